@@ -471,7 +471,7 @@ Qed.
 Definition is_query (o : op) : bool :=
   match o with
   | OGetByName _ | OGetName _ | OGetFlags _ | OGet _ _ _ _ | OTargets _ _ _ _ _ | OInits _ _ _ _ _
-  | OBestT _ _ _ | OBestI _ _ _ | OLocal _ _ _ _ | ODefNodes _ => true
+  | OBestT _ _ _ | OBestI _ _ _ | OLocal _ _ _ _ | ODefNodes _ | ORegisterNull _ => true
   | _ => false
   end.
 
@@ -498,6 +498,7 @@ Proof.
   - rewrite fst_let. unfold get_initiators. break_match; cbn [fst]; intros <-; try (left; reflexivity); right; do 2 eexists; (split; [eassumption|reflexivity]).
   - rewrite fst_let. unfold get_best_target. break_match; cbn [fst]; intros <-; try (left; reflexivity); right; do 2 eexists; (split; [eassumption|reflexivity]).
   - rewrite fst_let. unfold get_best_initiator. break_match; cbn [fst]; intros <-; try (left; reflexivity); right; do 2 eexists; (split; [eassumption|reflexivity]).
+  - intros <-. now left.
   - intros <-. now left.
   - intros <-. now left.
 Qed.
@@ -1284,7 +1285,7 @@ Fixpoint hist_ok (s : mstate) (ops : list op) : Prop :=
 
 Lemma to_internal_stable t l q : loc_ok t l -> wf_topo t -> to_internal l = Some q -> loc_stable t q.
 Proof.
-  unfold to_internal, loc_ok. destruct l as [[c|]|o|]; try discriminate.
+  unfold to_internal, loc_ok. destruct l as [[c|]|o| |]; try discriminate.
   - destruct (bs_is_empty c) eqn:E; [discriminate|]. intros H _ K. injection K as <-. split; assumption.
   - intros H W K. injection K as <-. exists o. now apply obj_by_type_gp_in.
 Qed.
